@@ -5,6 +5,7 @@ package main
 import (
 	"verif/fw"
 
+	_ "verif/harness/c11"
 	_ "verif/harness/c12"
 	_ "verif/harness/c13"
 )
